@@ -19,6 +19,8 @@ same constants, so the correspondence run compares the code with the model *of t
   crosstab2dAligns  D12 2-D dask `crosstab` brings the values onto the zones chunking
   crosstab3dAligns      the 3-D dask path does
   stridesBits           width of the integer array `_strides` returns (the crosstab counts are differences of it)
+  stridesProg           `_strides` itself, translated statement by statement into the loop language of Model/ZonalLoop.lean
+  mask*                 the validity filters `A[mask]` of `_calc_stats`, `_find_cats`, `_single_zone_crosstab_2d/_3d` as `MExpr`
   pctNumpy / pctDask    the `percentage` expression of `_crosstab_numpy` / `_crosstab_df_dask`, translated into a
                         `PExpr` tree (Model/Crosstab.lean) over count / total / literals / `*` / `/`
 
@@ -618,6 +620,122 @@ def fact_pct_expr(mod, fname):
 
 TOTAL = "_total_count"
 
+# ---------------------------------------------------------------- `_strides` -> a loop program (Model/ZonalLoop.lean)
+class _NotLoopLang(Exception):
+    pass
+
+
+def strides_prog(mod):
+    """`_strides` statement by statement -> Lean `LProg` term, in normal form: the temporaries bound once to a value
+    (`num_elements = flatten_zones.shape[0]`) are inlined, the array parameters are `a0, a1, ...`, the scalars
+    `v0, v1, ...` in the order of their first binding, `x += k` is `x = x + k`, the allocation
+    `out = np.zeros(<n>, dtype=...)` of the returned array becomes `outLen`.  (text, ok, note)"""
+    f = find_func(mod, "_strides")
+    bad = "{ outLen := .lit 0, body := [], ok := false }"
+    if f is None:
+        return bad, False, "no _strides"
+    arrays = {a.arg: f"a{i}" for i, a in enumerate(f.args.args)}
+    rets = [n for n in ast.walk(f) if isinstance(n, ast.Return)]
+    if len(rets) != 1 or not isinstance(rets[0].value, ast.Name) or f.body[-1] is not rets[0]:
+        return bad, False, "not a single trailing `return <array>`"
+    out = rets[0].value.id
+    temps = {k: v for k, v in single_assignments(f).items() if pure_expr(v) and k != out
+             and not any(isinstance(m, ast.Call) and u(m.func).startswith("np.") for m in ast.walk(v))}
+    scalars = {}
+
+    def ne(x):
+        x = _Subst(temps).visit(copy.deepcopy(x))
+        for _ in range(3):
+            x = _Subst(temps).visit(x)
+        if isinstance(x, ast.Constant) and isinstance(x.value, int) and not isinstance(x.value, bool) and x.value >= 0:
+            return f"(.lit {x.value})"
+        if isinstance(x, ast.Name):
+            if x.id in arrays or x.id == out:
+                raise _NotLoopLang("array used as a number: " + x.id)
+            if x.id not in scalars:
+                raise _NotLoopLang("scalar read before it is bound: " + x.id)
+            return f'(.var "{scalars[x.id]}")'
+        if isinstance(x, ast.BinOp) and isinstance(x.op, ast.Add):
+            return f"(.add {ne(x.left)} {ne(x.right)})"
+        t = u(x)
+        for a, nm in arrays.items():
+            if t in (f"len({a})", f"{a}.shape[0]", f"{a}.size"):
+                return f'(.len "{nm}")'
+        raise _NotLoopLang("number expression " + ast.unparse(x))
+
+    def be(x):
+        if isinstance(x, ast.BoolOp) and isinstance(x.op, ast.And):
+            parts = [be(v) for v in x.values]
+            acc = parts[0]
+            for q in parts[1:]:
+                acc = f"(.and {acc} {q})"
+            return acc
+        if isinstance(x, ast.Compare) and len(x.ops) == 1:
+            l, r, op = x.left, x.comparators[0], x.ops[0]
+            if isinstance(op, ast.Lt):
+                return f"(.lt {ne(l)} {ne(r)})"
+            if isinstance(op, ast.Gt):
+                return f"(.lt {ne(r)} {ne(l)})"
+            if isinstance(op, ast.Eq) and isinstance(l, ast.Subscript) and isinstance(r, ast.Subscript) \
+                    and u(l.value) in arrays and u(r.value) in arrays:
+                return f'(.eqAt "{arrays[u(l.value)]}" {ne(l.slice)} "{arrays[u(r.value)]}" {ne(r.slice)})'
+        raise _NotLoopLang("condition " + ast.unparse(x))
+
+    def bind(name):
+        if name in arrays or name == out:
+            raise _NotLoopLang("array rebound: " + name)
+        if name not in scalars:
+            scalars[name] = f"v{len(scalars)}"
+        return scalars[name]
+
+    out_len = [None]
+
+    def stmts(body):
+        res = []
+        for st in body:
+            if isinstance(st, ast.Expr) and isinstance(st.value, ast.Constant):
+                continue
+            if isinstance(st, ast.Return):
+                continue
+            if isinstance(st, ast.Assign) and len(st.targets) == 1 and isinstance(st.targets[0], ast.Name):
+                nm = st.targets[0].id
+                if nm in temps:
+                    continue
+                if nm == out:
+                    call = st.value
+                    if out_len[0] is not None or not (isinstance(call, ast.Call) and u(call.func) in ("np.zeros", "np.empty") and call.args):
+                        raise _NotLoopLang("allocation of the returned array")
+                    out_len[0] = ne(call.args[0])
+                    continue
+                e = ne(st.value)
+                res.append(f'.assign "{bind(nm)}" {e}')
+            elif isinstance(st, ast.AugAssign) and isinstance(st.target, ast.Name) and isinstance(st.op, ast.Add):
+                e = f'(.add {ne(st.target)} {ne(st.value)})'
+                res.append(f'.assign "{bind(st.target.id)}" {e}')
+            elif isinstance(st, ast.Assign) and len(st.targets) == 1 and isinstance(st.targets[0], ast.Subscript) \
+                    and u(st.targets[0].value) == out:
+                res.append(f".store {ne(st.targets[0].slice)} {ne(st.value)}")
+            elif isinstance(st, ast.While) and not st.orelse:
+                c = be(st.test)
+                res.append(f".whileDo {c} [{', '.join(stmts(st.body))}]")
+            elif isinstance(st, ast.For) and not st.orelse and isinstance(st.target, ast.Name) and isinstance(st.iter, ast.Call) \
+                    and u(st.iter.func) == "range" and len(st.iter.args) == 1 and not st.iter.keywords:
+                n = ne(st.iter.args[0])
+                v = bind(st.target.id)
+                res.append(f'.forRange "{v}" {n} [{", ".join(stmts(st.body))}]')
+            else:
+                raise _NotLoopLang("statement " + ast.unparse(st).splitlines()[0])
+        return res
+
+    try:
+        body = stmts(f.body)
+        if out_len[0] is None:
+            raise _NotLoopLang("the returned array is not allocated by np.zeros / np.empty")
+    except _NotLoopLang as ex_:
+        return bad, False, str(ex_)
+    return "{ outLen := " + out_len[0] + "\n    body := [" + ",\n      ".join(body) + "]\n    ok := true }", True, "ok"
+
+
 # ---------------------------------------------------------------- the validity filters, translated
 NODATA = "nodata_values"
 
@@ -761,6 +879,7 @@ def generate(repo):
     bits = fact_strides_bits(mod)
     pct_np, pct_np_src = fact_pct_expr(mod, "_crosstab_numpy")
     pct_dk, pct_dk_src = fact_pct_expr(mod, "_crosstab_df_dask")
+    sprog, sprog_ok, sprog_note = strides_prog(mod)
     masks = {nm: fact_mask(mod, fn) for nm, fn in (("maskCalcStats", "_calc_stats"), ("maskFindCats", "_find_cats"),
                                                    ("maskZone2d", "_single_zone_crosstab_2d"),
                                                    ("maskZone3d", "_single_zone_crosstab_3d"))}
@@ -768,8 +887,8 @@ def generate(repo):
                catStartAlways=cat_always, rowsSortedNumpy=rows_np, rowsSortedDask=rows_dk,
                statsAligns=st_al, crosstab2dAligns=a2, crosstab3dAligns=a3,
                stridesBits=bits, pctNumpy=pct_np, pctNumpy_src=pct_np_src, pctDask=pct_dk, pctDask_src=pct_dk_src,
-               masks={k: v[0] for k, v in masks.items()})
-    lines = ["import XrsVerif.Model.Crosstab",
+               masks={k: v[0] for k, v in masks.items()}, stridesProg=" ".join(sprog.split()), stridesProg_note=sprog_note)
+    lines = ["import XrsVerif.Model.Crosstab", "import XrsVerif.Model.ZonalLoop",
              "/-! GENERATED by harness/facts_zonal.py from the current /repo source (xrspatial/zonal.py) -- do not edit. -/",
              "namespace XrsVerif.Gen.Zonal", "open XrsVerif.Zonal", "",
              "/-- `_sort_and_stride` removes the non-finite-zone entries from `sorted_indices` before the gather -/",
@@ -802,5 +921,7 @@ def generate(repo):
              "-- the validity filters (`A[mask]`) of `_calc_stats`, `_find_cats` (2-D), `_single_zone_crosstab_2d/_3d`"] + [
              x for nm, (term, src) in masks.items() for x in
              ("/-- " + " ".join(src.split()).replace("-/", "- /") + " -/", f"def {nm} : MExpr := {term}")] + [
+             "", "/-- `_strides`, statement by statement, in the translator's normal form (" + sprog_note + ") -/",
+             "def stridesProg : LProg :=", "  " + sprog,
              "", "end XrsVerif.Gen.Zonal", ""]
     yield "Zonal.lean", "\n".join(lines), rep
